@@ -29,6 +29,7 @@ fn names_tok(names: &[String]) -> String {
 }
 
 struct Sess {
+    mem: std::collections::HashMap<(u64, String), u64>,
     wb: Worterbuch,
     rxs: Vec<Rx>,
     reqs: Vec<Option<oneshot::Receiver<()>>>,
@@ -48,6 +49,28 @@ async fn exec(s: &mut Sess, line: &str) -> String {
             Ok((v, ver)) => format!("cval {} {}", ver, js(&v)),
             Err(e) => err(&e),
         },
+        "cgetr" => {
+            // client-side memory for the cget -> cset cycle
+            let key = unhex(t[2]);
+            match wb.cget(&key) {
+                Ok((v, ver)) => {
+                    s.mem.insert((n(1), key), ver);
+                    format!("cval {} {}", ver, js(&v))
+                }
+                Err(e) => {
+                    s.mem.insert((n(1), key), 0);
+                    err(&e)
+                }
+            }
+        }
+        "csetr" => {
+            let key = unhex(t[2]);
+            let ver = s.mem.get(&(n(1), key.clone())).copied().unwrap_or(0);
+            match wb.cset(key, json_of(t[3]), ver, client(n(1)), false).await {
+                Ok(()) => "ok".into(),
+                Err(e) => err(&e),
+            }
+        }
         "pget" => match wb.pget(&unhex(t[1])) {
             Ok(kvs) => format!("kvs {}", kvs_tok(&kvs)),
             Err(e) => err(&e),
@@ -251,7 +274,7 @@ fn drain(s: &mut Sess) -> String {
 
 fn run_case(config: &Config, ops: &[String]) -> Vec<String> {
     let rt = tokio::runtime::Builder::new_current_thread().enable_all().build().expect("rt");
-    let mut s = Sess { wb: Worterbuch::with_config(config.clone()), rxs: vec![], reqs: vec![] };
+    let mut s = Sess { mem: Default::default(), wb: Worterbuch::with_config(config.clone()), rxs: vec![], reqs: vec![] };
     let mut out = vec![];
     for line in ops {
         let r = catch_unwind(AssertUnwindSafe(|| rt.block_on(exec(&mut s, line))));
